@@ -10,7 +10,7 @@ open AsyncsshModel.Auth
 
 /-- a credential check for `u` succeeded on this connection, or the application declared that `u` needs none -/
 def Granted (app : App) (log : List Call) (u : Nat) : Prop :=
-  app.needsAuth u = false ∨ (∃ c, Call.checkPw u c true ∈ log) ∨ (∃ k, Call.checkKey u k true (some true) ∈ log)
+  app.needsAuth u = false ∨ (∃ c, Call.checkPw u c true ∈ log) ∨ (∃ k, Call.checkKey u u k true (some true) ∈ log)
 
 theorem granted_mono (app : App) (log extra : List Call) (u : Nat) (h : Granted app log u) :
     Granted app (log ++ extra) u := by
@@ -23,10 +23,16 @@ structure Inv (app : App) (s : St) : Prop where
   authUser : ∀ a, s.auth = some a → s.username = some a.user
   taskUser : ∀ t ∈ s.tasks, t.seq = s.seq → s.username = some t.calledUser
   seqs : ∀ t ∈ s.tasks, t.seq ≤ s.seq
+  authBegun : ∀ a, s.auth = some a → s.begun = some a.user
+  parkedNoAuth : ∀ t ∈ s.tasks, t.seq = s.seq → s.auth = none
+  uniq : ∀ t ∈ s.tasks, ∀ t' ∈ s.tasks, t.seq = t'.seq → t.beginIdx = t'.beginIdx
   done : ∀ u, s.complete = some u → Granted app s.log u
 
 theorem inv_init (app : App) : Inv app {} := by
-  refine ⟨?_, ?_, ?_, ?_⟩
+  refine ⟨?_, ?_, ?_, ?_, ?_, ?_, ?_⟩
+  · intro a h; cases h
+  · intro t h; cases h
+  · intro t h; cases h
   · intro a h; cases h
   · intro t h; cases h
   · intro t h; cases h
@@ -39,9 +45,11 @@ theorem sendSuccess_inv (app : App) (s : St) (h : Inv app s)
   | none => simpa [hu] using h
   | some u =>
     simp only
-    refine ⟨?_, ?_, h.seqs, ?_⟩
+    refine ⟨?_, ?_, h.seqs, ?_, ?_, h.uniq, ?_⟩
     · intro a ha; cases ha
     · intro t ht hs; rw [← hu]; exact h.taskUser t ht hs
+    · intro a ha; cases ha
+    · intro t ht hs; rfl
     · intro v hv
       simp only [Option.some.injEq] at hv
       subst hv
@@ -49,9 +57,10 @@ theorem sendSuccess_inv (app : App) (s : St) (h : Inv app s)
 
 theorem sendFailure_inv (app : App) (s : St) (h : Inv app s) : Inv app (sendFailure s) := by
   unfold sendFailure
-  exact ⟨(by intro a ha; cases ha), h.taskUser, h.seqs, h.done⟩
+  exact ⟨(by intro a ha; cases ha), h.taskUser, h.seqs, (by intro a ha; cases ha), (by intro t ht hs; rfl), h.uniq, h.done⟩
 
-theorem createAuth_inv (app : App) (s : St) (r : Req) (h : Inv app s) : Inv app (createAuth s r) := by
+theorem createAuth_inv (app : App) (s : St) (r : Req) (h : Inv app s) (hb : s.begun = s.username)
+    (hnp : ∀ t ∈ s.tasks, t.seq ≠ s.seq) : Inv app (createAuth s r) := by
   unfold createAuth
   split
   · exact h
@@ -61,20 +70,31 @@ theorem createAuth_inv (app : App) (s : St) (r : Req) (h : Inv app s) : Inv app 
       split
       · exact sendFailure_inv app s h
       · exact sendFailure_inv app s h
-      · refine ⟨?_, h.taskUser, h.seqs, h.done⟩
-        intro a ha
-        simp only [Option.some.injEq] at ha
-        subst ha
-        exact hu
+      · refine ⟨?_, h.taskUser, h.seqs, ?_, ?_, h.uniq, h.done⟩
+        · intro a ha
+          simp only [Option.some.injEq] at ha
+          subst ha
+          exact hu
+        · intro a ha
+          simp only [Option.some.injEq] at ha
+          subst ha
+          simp only; rw [hb, hu]
+        · intro t ht hs; exact absurd hs (hnp t ht)
 
 theorem afterBegin_inv (app : App) (s : St) (cu : Nat) (r : Req) (h : Inv app s)
-    (hcu : s.username = some cu) : Inv app (afterBegin app s cu r) := by
+    (hcu : s.username = some cu) (hna : s.auth = none) (hnp : ∀ t ∈ s.tasks, t.seq ≠ s.seq) :
+    Inv app (afterBegin app s cu r) := by
   unfold afterBegin
+  have h' : Inv app { s with begun := some cu } :=
+    ⟨h.authUser, h.taskUser, h.seqs, (by intro a ha; simp only at ha; rw [hna] at ha; cases ha),
+      h.parkedNoAuth, h.uniq, h.done⟩
+  simp only
   split
-  · exact createAuth_inv app s r h
+  · exact createAuth_inv app _ r h' (by simp [hcu]) hnp
   · rename_i hn
-    apply sendSuccess_inv app s h
+    apply sendSuccess_inv app _ h'
     intro u hu
+    simp only at hu
     rw [hcu] at hu
     simp only [Option.some.injEq] at hu
     subst hu
@@ -87,35 +107,35 @@ theorem onReq_inv (app : App) (s : St) (r : Req) (h : Inv app s) : Inv app (onRe
   · exact h
   · split
     · split
-      · exact ⟨h.authUser, h.taskUser, h.seqs, h.done⟩
+      · exact ⟨h.authUser, h.taskUser, h.seqs, h.authBegun, h.parkedNoAuth, h.uniq, h.done⟩
       · exact h
     · rename_i hc
       have hcn : s.complete = none := by
         cases hcc : s.complete with
         | none => rfl
         | some v => simp [hcc] at hc
+      have hold : ∀ t ∈ s.tasks, t.seq ≠ s.seq + 1 := by
+        intro t ht; have := h.seqs t ht; omega
       -- the state after switching the user name and aborting what was in progress
       have h1 : ∀ log nb, Inv app { s with username := some r.user, seq := s.seq + 1, auth := none,
                                             log := log, nBegin := nb } := by
         intro log nb
-        refine ⟨?_, ?_, ?_, ?_⟩
+        refine ⟨?_, ?_, ?_, ?_, ?_, h.uniq, ?_⟩
         · intro a ha; cases ha
-        · intro t ht hs
-          exfalso
-          have := h.seqs t ht
-          simp only at hs
-          omega
+        · intro t ht hs; exact absurd hs (hold t ht)
         · intro t ht
           have := h.seqs t ht
           simp only
           omega
+        · intro a ha; cases ha
+        · intro t ht hs; rfl
         · intro u hu; simp only at hu; rw [hcn] at hu; cases hu
       simp only
       split
       · split
         · -- asynchronous begin_auth: the task is parked
           have hb := h1 (s.log ++ [Call.begin r.user]) (s.nBegin + 1)
-          refine ⟨hb.authUser, ?_, ?_, hb.done⟩
+          refine ⟨hb.authUser, ?_, ?_, hb.authBegun, ?_, ?_, hb.done⟩
           · intro t ht hs
             simp only [List.mem_append, List.mem_singleton] at ht
             rcases ht with ht | rfl
@@ -126,8 +146,18 @@ theorem onReq_inv (app : App) (s : St) (r : Req) (h : Inv app s) : Inv app (onRe
             rcases ht with ht | rfl
             · exact hb.seqs t ht
             · exact Nat.le_refl _
-        · exact afterBegin_inv app _ r.user r (h1 _ _) rfl
-      · exact createAuth_inv app _ r (h1 s.log s.nBegin)
+          · intro t ht hs; rfl
+          · intro t ht t' ht' hs
+            simp only [List.mem_append, List.mem_singleton] at ht ht'
+            rcases ht with ht | rfl <;> rcases ht' with ht' | rfl
+            · exact h.uniq t ht t' ht' hs
+            · exact absurd hs (hold t ht)
+            · exact absurd hs.symm (hold t' ht')
+            · rfl
+        · exact afterBegin_inv app _ r.user r (h1 _ _) rfl rfl hold
+      · rename_i hbeg
+        have hbeg' : s.begun = some r.user := by simpa using hbeg
+        exact createAuth_inv app _ r (h1 s.log s.nBegin) hbeg' hold
 
 theorem onBeginDone_inv (app : App) (s : St) (k : Nat) (h : Inv app s) : Inv app (onBeginDone app s k) := by
   unfold onBeginDone
@@ -137,16 +167,28 @@ theorem onBeginDone_inv (app : App) (s : St) (k : Nat) (h : Inv app s) : Inv app
   · exact h
   · rename_i t hf
     have htm : t ∈ s.tasks := List.mem_of_find?_eq_some hf
+    have htk : t.beginIdx = k := by simpa using List.find?_some hf
     have h1 : Inv app { s with tasks := s.tasks.filter (·.beginIdx ≠ k) } := by
-      refine ⟨h.authUser, ?_, ?_, h.done⟩
+      refine ⟨h.authUser, ?_, ?_, h.authBegun, ?_, ?_, h.done⟩
       · intro t' ht' hs; exact h.taskUser t' (List.mem_filter.mp ht').1 hs
       · intro t' ht'; exact h.seqs t' (List.mem_filter.mp ht').1
+      · intro t' ht' hs; exact h.parkedNoAuth t' (List.mem_filter.mp ht').1 hs
+      · intro a ha b hb hs; exact h.uniq a (List.mem_filter.mp ha).1 b (List.mem_filter.mp hb).1 hs
     simp only
     split
     · exact h1
     · rename_i hseq
       have hseq' : t.seq = s.seq := by simpa using hseq
-      exact afterBegin_inv app _ t.calledUser t.req h1 (h.taskUser t htm hseq')
+      refine afterBegin_inv app _ t.calledUser t.req h1 (h.taskUser t htm hseq') (h.parkedNoAuth t htm hseq') ?_
+      -- no other parked task carries the current sequence number: sequence numbers are unique per request
+      intro t' ht' hs'
+      have hm := List.mem_filter.mp ht'
+      have hidx := h.uniq t' hm.1 t htm (by simp only at hs'; rw [hs', hseq'])
+      have : t'.beginIdx ≠ k := by simpa using hm.2
+      exact this (hidx.trans htk)
+
+theorem keyCtx_eq (app : App) (s : St) (a : AuthObj) (hb : s.begun = some a.user) : keyCtx app s a = a.user := by
+  unfold keyCtx; split <;> simp [hb]
 
 theorem onValDone_inv (app : App) (s : St) (k : Nat) (h : Inv app s) : Inv app (onValDone app s k) := by
   unfold onValDone
@@ -156,11 +198,13 @@ theorem onValDone_inv (app : App) (s : St) (k : Nat) (h : Inv app s) : Inv app (
   · exact h
   · rename_i a ha
     have hu := h.authUser a ha
+    have hctx := keyCtx_eq app s a (h.authBegun a ha)
     split
     · exact h
     · -- the live auth object's validator answered; its user is the connection's user
       have hlog : ∀ extra, Inv app { s with log := s.log ++ extra } := fun extra =>
-        ⟨h.authUser, h.taskUser, h.seqs, fun u hc => granted_mono app _ _ u (h.done u hc)⟩
+        ⟨h.authUser, h.taskUser, h.seqs, h.authBegun, h.parkedNoAuth, h.uniq,
+          fun u hc => granted_mono app _ _ u (h.done u hc)⟩
       split
       · -- password
         dsimp only
@@ -178,19 +222,26 @@ theorem onValDone_inv (app : App) (s : St) (k : Nat) (h : Inv app s) : Inv app (
       · -- publickey probe
         dsimp only
         split
-        · have hb := hlog [Call.checkKey a.user a.req.cred (app.keyOK a.user a.req.cred) none]
-          refine ⟨?_, hb.taskUser, hb.seqs, hb.done⟩
-          intro a' ha'
-          simp only [Option.some.injEq] at ha'
-          subst ha'
-          exact hu
+        · have hb := hlog [Call.checkKey (keyCtx app s a) a.user a.req.cred (app.keyOK (keyCtx app s a) a.req.cred) none]
+          refine ⟨?_, hb.taskUser, hb.seqs, ?_, ?_, hb.uniq, hb.done⟩
+          · intro a' ha'
+            simp only [Option.some.injEq] at ha'
+            subst ha'
+            exact hu
+          · intro a' ha'
+            simp only [Option.some.injEq] at ha'
+            subst ha'
+            exact h.authBegun a ha
+          · intro t ht hs
+            have := h.parkedNoAuth t ht hs
+            rw [ha] at this; cases this
         · exact sendFailure_inv app _ (hlog _)
       · -- publickey with signature
         rename_i sigOK _
         dsimp only
         split
         · rename_i hok
-          have hok' : app.keyOK a.user a.req.cred = true ∧ sigOK = true := by simpa using hok
+          have hok' : app.keyOK (keyCtx app s a) a.req.cred = true ∧ sigOK = true := by simpa using hok
           apply sendSuccess_inv app _ (hlog _)
           intro u huu
           simp only at huu
@@ -198,7 +249,9 @@ theorem onValDone_inv (app : App) (s : St) (k : Nat) (h : Inv app s) : Inv app (
           simp only [Option.some.injEq] at huu
           subst huu
           right; right
-          exact ⟨a.req.cred, by simp [hok'.1, hok'.2]⟩
+          refine ⟨a.req.cred, ?_⟩
+          rw [hctx] at hok' ⊢
+          simp [hok'.1, hok'.2]
         · exact sendFailure_inv app _ (hlog _)
       · exact h
 
@@ -210,14 +263,14 @@ theorem step_inv (app : App) (s : St) (ev : Ev) (h : Inv app s) : Inv app (step 
   | other =>
     simp only [step]
     split
-    · exact ⟨h.authUser, h.taskUser, h.seqs, h.done⟩
-    · exact ⟨h.authUser, h.taskUser, h.seqs, h.done⟩
+    · exact ⟨h.authUser, h.taskUser, h.seqs, h.authBegun, h.parkedNoAuth, h.uniq, h.done⟩
+    · exact ⟨h.authUser, h.taskUser, h.seqs, h.authBegun, h.parkedNoAuth, h.uniq, h.done⟩
 
 /-- **Access is granted only after a successful credential check for that very user**: for EVERY sequence of
     requests and completions — repetition, method switch, user switch, pipelining while the application is still
     deciding — if the connection ends up authenticated as `u` then the application accepted `u`'s password, or
-    a key authorised for `u` verified a signature over this session's identifier and that exact request, or the
-    application declared that `u` needs no authentication. -/
+    a key authorised for `u` (checked against `u`'s own authorized keys) verified a signature over this session's
+    identifier and that exact request, or the application declared that `u` needs no authentication. -/
 theorem run_inv (app : App) (evs : List Ev) (s : St) (hs : Inv app s) : Inv app (evs.foldl (step app) s) := by
   induction evs generalizing s with
   | nil => exact hs
@@ -230,22 +283,22 @@ theorem auth_sound (app : App) (evs : List Ev) (u : Nat) (h : (run app evs).comp
 /-- every logged check records the application's own verdict for that user and credential -/
 def LogHonest (app : App) (log : List Call) : Prop :=
   (∀ u c, Call.checkPw u c true ∈ log → app.pwOK u c = true) ∧
-  (∀ u k sg, Call.checkKey u k true sg ∈ log → app.keyOK u k = true)
+  (∀ ctx u k sg, Call.checkKey ctx u k true sg ∈ log → app.keyOK ctx k = true)
 
 theorem logHonest_append (app : App) (log : List Call) (c : Call) (h : LogHonest app log)
     (hc : (∀ u cr, c = Call.checkPw u cr true → app.pwOK u cr = true) ∧
-          (∀ u k sg, c = Call.checkKey u k true sg → app.keyOK u k = true)) : LogHonest app (log ++ [c]) := by
+          (∀ ctx u k sg, c = Call.checkKey ctx u k true sg → app.keyOK ctx k = true)) : LogHonest app (log ++ [c]) := by
   refine ⟨?_, ?_⟩
   · intro u cr hm
     simp only [List.mem_append, List.mem_singleton] at hm
     rcases hm with hm | hm
     · exact h.1 u cr hm
     · exact hc.1 u cr hm.symm
-  · intro u k sg hm
+  · intro ctx u k sg hm
     simp only [List.mem_append, List.mem_singleton] at hm
     rcases hm with hm | hm
-    · exact h.2 u k sg hm
-    · exact hc.2 u k sg hm.symm
+    · exact h.2 ctx u k sg hm
+    · exact hc.2 ctx u k sg hm.symm
 
 theorem sendSuccess_log (s : St) : (sendSuccess s).log = s.log := by
   unfold sendSuccess; split <;> rfl
@@ -254,15 +307,17 @@ theorem createAuth_log (s : St) (r : Req) : (createAuth s r).log = s.log := by
   unfold createAuth sendFailure; split <;> (try split) <;> (try split) <;> rfl
 
 theorem afterBegin_log (app : App) (s : St) (cu : Nat) (r : Req) : (afterBegin app s cu r).log = s.log := by
-  unfold afterBegin; split
-  · exact createAuth_log s r
-  · exact sendSuccess_log s
+  unfold afterBegin
+  simp only
+  split
+  · exact createAuth_log _ r
+  · exact sendSuccess_log _
 
 theorem step_logHonest (app : App) (s : St) (ev : Ev) (h : LogHonest app s.log) : LogHonest app (step app s ev).log := by
   have hbegin : ∀ u, LogHonest app (s.log ++ [Call.begin u]) := by
     intro u
     apply logHonest_append app _ _ h
-    exact ⟨(by intro _ _ hc; cases hc), (by intro _ _ _ hc; cases hc)⟩
+    exact ⟨(by intro _ _ hc; cases hc), (by intro _ _ _ _ hc; cases hc)⟩
   cases ev with
   | req r =>
     simp only [step, onReq]
@@ -299,7 +354,7 @@ theorem step_logHonest (app : App) (s : St) (ev : Ev) (h : LogHonest app s.log) 
         · try dsimp only
           have hl : LogHonest app (s.log ++ [Call.checkPw a.user a.req.cred (app.pwOK a.user a.req.cred)]) := by
             apply logHonest_append app _ _ h
-            refine ⟨?_, (by intro _ _ _ hc; cases hc)⟩
+            refine ⟨?_, (by intro _ _ _ _ hc; cases hc)⟩
             intro u cr hc
             simp only [Call.checkPw.injEq] at hc
             obtain ⟨rfl, rfl, h3⟩ := hc
@@ -308,24 +363,26 @@ theorem step_logHonest (app : App) (s : St) (ev : Ev) (h : LogHonest app s.log) 
           · rw [sendSuccess_log]; exact hl
           · exact hl
         · try dsimp only
-          have hl : LogHonest app (s.log ++ [Call.checkKey a.user a.req.cred (app.keyOK a.user a.req.cred) none]) := by
+          have hl : LogHonest app (s.log ++ [Call.checkKey (keyCtx app s a) a.user a.req.cred
+              (app.keyOK (keyCtx app s a) a.req.cred) none]) := by
             apply logHonest_append app _ _ h
             refine ⟨(by intro _ _ hc; cases hc), ?_⟩
-            intro u k sg hc
+            intro ctx u k sg hc
             simp only [Call.checkKey.injEq] at hc
-            obtain ⟨rfl, rfl, h3, _⟩ := hc
+            obtain ⟨rfl, _, rfl, h3, _⟩ := hc
             exact h3
           split
           · exact hl
           · exact hl
         · rename_i sigOK _
           try dsimp only
-          have hl : LogHonest app (s.log ++ [Call.checkKey a.user a.req.cred (app.keyOK a.user a.req.cred) (some sigOK)]) := by
+          have hl : LogHonest app (s.log ++ [Call.checkKey (keyCtx app s a) a.user a.req.cred
+              (app.keyOK (keyCtx app s a) a.req.cred) (some sigOK)]) := by
             apply logHonest_append app _ _ h
             refine ⟨(by intro _ _ hc; cases hc), ?_⟩
-            intro u k sg hc
+            intro ctx u k sg hc
             simp only [Call.checkKey.injEq] at hc
-            obtain ⟨rfl, rfl, h3, _⟩ := hc
+            obtain ⟨rfl, _, rfl, h3, _⟩ := hc
             exact h3
           split
           · rw [sendSuccess_log]; exact hl
@@ -340,7 +397,7 @@ theorem run_logHonest (app : App) (evs : List Ev) : LogHonest app (run app evs).
     induction evs with
     | nil => intro s hs; exact hs
     | cons ev rest ih => intro s hs; exact ih _ (step_logHonest app s ev hs)
-  exact this {} ⟨(by intro _ _ h; cases h), (by intro _ _ _ h; cases h)⟩
+  exact this {} ⟨(by intro _ _ h; cases h), (by intro _ _ _ _ h; cases h)⟩
 
 /-- **No repetition, interleaving, pipelining, or switch of method or user name grants access otherwise**: if
     the application needs authentication for `u` and accepts no password and no key for `u`, then NO sequence
@@ -353,7 +410,7 @@ theorem no_grant_by_sequencing (app : App) (evs : List Ev) (u : Nat) (hn : app.n
   rcases auth_sound app evs u h with hg | ⟨c, hg⟩ | ⟨k, hg⟩
   · rw [hn] at hg; cases hg
   · have := hl.1 u c hg; rw [hpw c] at this; cases this
-  · have := hl.2 u k _ hg; rw [hkey k] at this; cases this
+  · have := hl.2 u u k _ hg; rw [hkey k] at this; cases this
 
 /-- a signature that does not verify over this session's identifier and this exact request (wrong session id,
     wrong user, wrong service, wrong key) never grants access, even for an authorised key -/
@@ -386,15 +443,15 @@ theorem client_admitted (app : App) (u c : Nat) (hn : app.needsAuth u = true) :
     cases hb : app.beginAsync <;>
       simp [run, step, onReq, onBeginDone, onValDone, afterBegin, createAuth, sendSuccess, hn, hp, hb]
   · intro hk
-    cases hb : app.beginAsync <;>
-      simp [run, step, onReq, onBeginDone, onValDone, afterBegin, createAuth, sendSuccess, hn, hk, hb]
+    cases hb : app.beginAsync <;> cases hp : app.perUserKeys <;>
+      simp [run, step, onReq, onBeginDone, onValDone, afterBegin, createAuth, sendSuccess, keyCtx, hn, hk, hb, hp]
 
 /-! ### the defect the repair removed (F1), as a machine-checked witness about the pre-fix transition function -/
 
 def witnessApp : App :=
   { needsAuth := fun _ => true, beginAsync := true,
     pwOK := fun u c => u == 1 && c == 7,          -- only mallory (1) has a password, 7
-    keyOK := fun _ _ => false }
+    keyOK := fun _ _ => false, perUserKeys := false }
 
 /-- Pre-fix code: mallory (user 1) sends her own valid password; while the application is still validating it
     she pipelines a request naming alice (user 2); the validator's late answer then authenticates the connection
@@ -413,5 +470,22 @@ theorem old_code_user_switch_witness :
   · simp [witnessApp] at h
   · simp at h
   · simp at h
+
+def witnessApp2 : App :=
+  { needsAuth := fun _ => true, beginAsync := true, pwOK := fun _ _ => false,
+    keyOK := fun u k => u == k,                    -- user n is authorised for key n only
+    perUserKeys := true }
+
+/-- Second form of the defect (found by an independent seeding agent against the first repair): with per-user
+    authorized keys installed in `begin_auth`, user 1 makes a request of her own (her keys get installed), then
+    pipelines `2/none` and `2/publickey` signed with HER key 1.  The code after the first repair skipped
+    `begin_auth(2)` for the third request (same user name as the aborted second one) and checked key 1 against the
+    keys still installed for user 1: authenticated as user 2.  The final transition function re-runs `begin_auth`. -/
+theorem mid_code_begin_auth_skipped_witness :
+    let evs := [Ev.req ⟨1, .pkProbe, 1⟩, .beginDone 0, .valDone 0, .req ⟨2, .none, 0⟩, .req ⟨2, .pkSig true, 1⟩, .valDone 1]
+    (runMid witnessApp2 evs).complete = some 2 ∧
+    (run witnessApp2 evs).complete = none ∧
+    (run witnessApp2 (evs ++ [.beginDone 2, .valDone 2])).complete = none := by
+  decide
 
 end AsyncsshModel.C05
